@@ -1,7 +1,7 @@
 (* Model/Fmap.v — executable model of pkg/fmap/fmap.go
    Transcribes: headerValid, Read, Write, ReadArea, WriteArea, Checksum
-   (the byte stream fed to the hash).  JSON (un)marshalling, FlagNames,
-   IndexOfArea and the cmds/fmap CLI are not modelled.
+   (the byte stream fed to the hash), and the JSON path of cmds/fmap jget / jput
+   (end of this file).  FlagNames, IndexOfArea and the CLI's file handling are not modelled.
    io.ReaderAt is a bytes.Reader over the image; io.WriterAt/WriteSeeker is a
    growable in-memory file (writes past the end extend it with zeros, as
    os.File does). *)
@@ -178,3 +178,77 @@ Definition wf_map (m : fmap) : bool :=
 (* is there a valid header at absolute offset p of data *)
 Definition valid_at (data : bytes) (p : Z) : bool :=
   match valid_here (zskipn p data) with Some _ => true | None => false end.
+
+(* ---- the JSON form of the map (cmds/fmap jget / jput) ----
+   jget marshals {FMap, Metadata}: numbers as JSON numbers, the signature as an array of
+   numbers, every name as the JSON string of its bytes up to the trailing NULs
+   (String.MarshalJSON = json.Marshal(strings.TrimRight(name, "\x00"))); jput unmarshals
+   (String.UnmarshalJSON copies the unquoted string into a zeroed [32]byte, longer strings
+   are an error) and writes the map at Metadata.Start.  For names of 7-bit bytes the JSON
+   string holds exactly those bytes (control characters, quotes, '<' etc. are escaped and
+   unescaped); names with bytes >= 0x80 pass through Go's UTF-8 decoding, which this model
+   does not transcribe: [json_name] answers None for them. *)
+Fixpoint trim0 (v : bytes) : bytes :=
+  match v with
+  | [] => []
+  | x :: r =>
+    match trim0 r with
+    | [] => if x =? 0 then [] else [x]
+    | r' => x :: r'
+    end
+  end.
+
+Definition ascii (s : bytes) : bool := forallb (fun b => (0 <=? b) && (b <? 128)) s.
+
+Definition E_NAMELONG : Z := 6.
+
+Definition json_name (v : bytes) : option (outcome bytes) :=
+  let s := trim0 v in
+  if negb (ascii s) then None
+  else if 32 <? zlen s then Some (Err E_NAMELONG)
+  else Some (Ok (s ++ zrepeat 0 (32 - zlen s))).
+
+Fixpoint json_areas (l : list area) : option (outcome (list area)) :=
+  match l with
+  | [] => Some (Ok [])
+  | a :: r =>
+    match json_name (a_name a), json_areas r with
+    | Some (Ok n), Some (Ok r') => Some (Ok (mkArea (a_off a) (a_size a) n (a_flags a) :: r'))
+    | None, _ | _, None => None
+    | Some (Ok _), Some o => Some o
+    | Some (Err e), _ => Some (Err e)
+    | Some o, _ => Some (Err E_NAMELONG)
+    end
+  end.
+
+(* the map after jget + json.Unmarshal *)
+Definition json_map (m : fmap) : option (outcome fmap) :=
+  let h := f_hdr m in
+  match json_name (h_name h), json_areas (f_areas m) with
+  | Some (Ok n), Some (Ok ars) =>
+    Some (Ok (mkFmap (mkHeader (h_sig h) (h_vmaj h) (h_vmin h) (h_base h) (h_size h) n (h_nareas h)) ars))
+  | None, _ | _, None => None
+  | Some (Err e), _ => Some (Err e)
+  | _, Some (Err e) => Some (Err e)
+  | _, _ => Some (Err E_NAMELONG)
+  end.
+
+(* fmap jget J IMG; fmap jput J IMG *)
+Definition json_roundtrip (img : bytes) : option (outcome bytes) :=
+  match read img with
+  | Ok (m, start) =>
+    match json_map m with
+    | Some (Ok m') => Some (Ok (write img m' start))
+    | Some (Err e) => Some (Err e)
+    | Some o => Some (Err E_NAMELONG)
+    | None => None
+    end
+  | Err e => Some (Err e)
+  | Panic s => Some (Panic s)
+  | Fuel => Some Fuel
+  end.
+
+Definition names32 (m : fmap) : bool :=
+  (zlen (h_name (f_hdr m)) =? 32) && forallb (fun a => zlen (a_name a) =? 32) (f_areas m).
+Definition names_ascii (m : fmap) : bool :=
+  ascii (h_name (f_hdr m)) && forallb (fun a => ascii (a_name a)) (f_areas m).
